@@ -59,3 +59,20 @@ package plonk
 //@   assigns *fs, titem(fs), tlen(fs, 0)
 //@   loop 1 invariant tlen(fs, 0) >= old(tlen(fs, 0)) && (forall k int :: 0 <= k && k < old(tlen(fs, 0)) ==> titem(fs, k) == old(titem(fs, k)))
 //@   ensures @append-only tlen(fs, 0) >= old(tlen(fs, 0)) && (forall k int :: 0 <= k && k < old(tlen(fs, 0)) ==> titem(fs, k) == old(titem(fs, k)))
+
+// ---- C09: the proof codec writes and reads the same twelve fields in the same order; the ghost sequences
+// record what the gnark-crypto encoder / decoder were handed (toEncode / toDecode are the functions' own lists).
+//@ contract (*Proof).writeTo
+//@   props C09
+//@   requires proof != nil
+//@   ensures @count result.1 == nil ==> nEnc(enc, 0) == 12 && len(toEncode) == 12
+//@   ensures @fields result.1 == nil ==> forall k int :: 0 <= k && k < 12 ==> encItem(enc, k) == boxid(toEncode[k])
+//@   ensures @list toEncode[0] == iface(&proof.LRO[0]) && toEncode[1] == iface(&proof.LRO[1]) && toEncode[2] == iface(&proof.LRO[2]) && toEncode[3] == iface(&proof.Z) && toEncode[4] == iface(&proof.H[0]) && toEncode[5] == iface(&proof.H[1]) && toEncode[6] == iface(&proof.H[2]) && toEncode[7] == iface(&proof.BatchedProof.H) && toEncode[8] == iface(proof.BatchedProof.ClaimedValues) && toEncode[9] == iface(&proof.ZShiftedOpening.H) && toEncode[10] == iface(&proof.ZShiftedOpening.ClaimedValue) && toEncode[11] == iface(proof.Bsb22Commitments)
+//@   loop 1 invariant @seq nEnc(enc, 0) == rangeindex + 1 && (forall k int :: 0 <= k && k <= rangeindex ==> encItem(enc, k) == boxid(toEncode[k]))
+//@ contract (*Proof).ReadFrom
+//@   props C09
+//@   requires proof != nil
+//@   ensures @count result.1 == nil ==> nDec(dec, 0) == 12 && len(toDecode) == 12
+//@   ensures @fields result.1 == nil ==> forall k int :: 0 <= k && k < 12 ==> decItem(dec, k) == boxid(toDecode[k])
+//@   ensures @list toDecode[0] == iface(&proof.LRO[0]) && toDecode[1] == iface(&proof.LRO[1]) && toDecode[2] == iface(&proof.LRO[2]) && toDecode[3] == iface(&proof.Z) && toDecode[4] == iface(&proof.H[0]) && toDecode[5] == iface(&proof.H[1]) && toDecode[6] == iface(&proof.H[2]) && toDecode[7] == iface(&proof.BatchedProof.H) && toDecode[8] == iface(&proof.BatchedProof.ClaimedValues) && toDecode[9] == iface(&proof.ZShiftedOpening.H) && toDecode[10] == iface(&proof.ZShiftedOpening.ClaimedValue) && toDecode[11] == iface(&proof.Bsb22Commitments)
+//@   loop 1 invariant @seq nDec(dec, 0) == rangeindex + 1 && (forall k int :: 0 <= k && k <= rangeindex ==> decItem(dec, k) == boxid(toDecode[k]))
